@@ -112,7 +112,8 @@ def make(ctx, rng, kind):
             V = gen_aa.delaunay_vertices(rng, lo - 1, hi + 1, 6, spread=1.0)
         mesh = aa.Mesh2DDelaunay(values=V.copy())
     srcg = aa.Grid2DIrregular(values=src.copy())
-    mg = aa.MapperGrids(mask=mask, source_plane_data_grid=srcg, source_plane_mesh_grid=mesh)
+    adapt = aa.Array2D(values=np.exp(rng.uniform(0.0, np.log(50.0), size=n)) * 0.1, mask=mask)      # non-uniform, positive
+    mg = aa.MapperGrids(mask=mask, source_plane_data_grid=srcg, source_plane_mesh_grid=mesh, adapt_data=adapt)
     mp = aa.Mapper(mapper_grids=mg, over_sampler=osamp, regularization=aa.reg.Constant(coefficient=1.0))
     return dict(m=m, fam=fam, ps=ps, origin=origin, subs=subs, submode=submode, src=src, dk=dk, mesh=mesh, V=V, mapper=mp, kind=kind)
 
@@ -128,6 +129,12 @@ def run_case(ctx, i):
     mp, src, subs, m = c["mapper"], c["src"], c["subs"], c["m"]
     n = int((~m).sum())
     W = dict(mask=m, sub_sizes=subs, kind=kind, distortion=c["dk"], scales=c["ps"], origin=c["origin"])
+    # access history: the adaptive regularizations ask the mapper for its pixel signals *before* the mapping matrix is first
+    # computed; that query must not change the tables / matrix (order 0: signals first, 1: between tables and matrix, 2: never)
+    order = i % 3
+    W["pixel_signals_query"] = ("before tables", "between tables and matrix", "not called")[order]
+    if order == 0:
+        ctx.guarded("pixel_signals", lambda: mp.pixel_signals_from(signal_scale=float(rng.uniform(0.5, 2.0))))
     ok, psw = ctx.guarded("pix_sub_weights", lambda: mp.pix_sub_weights)
     if not ok:
         return
@@ -218,6 +225,9 @@ def run_case(ctx, i):
     for q in range(nsub):
         for t in range(sizes[q]):
             Mref[slim_for_sub[q], maps[q, t]] += frac[slim_for_sub[q]] * wts[q, t]
+    if order == 1:
+        ctx.guarded("pixel_signals", lambda: mp.pixel_signals_from(signal_scale=float(rng.uniform(0.5, 2.0))))
+    ctx.classes["pixel_signals_query:" + W["pixel_signals_query"]] += 1
     ok, M = ctx.guarded("matrix.dense", lambda: _np(mp.mapping_matrix).astype(float))
     if ok:
         ctx.check(ctx.close(M, Mref, 1e-12), "matrix.dense", got=M, expected=Mref, **W)
